@@ -20,7 +20,7 @@ ASSUMPTIONS = ["the documented modern equivalents: [BranchL_M] -> [(''|=|#)Branc
 ATOMS_EXPL = ['C@@H', 'C@H', 'N+', 'O-', 'Fe++', 'Fe+2', 'N+1', 'C', 'CH', 'CH1', 'CH2', 'CH0', '13CH2', '13C', 'S+', 'H', 'N', 'B-',
               'N--', 'O--', 'Cu+2', 'Fe+++', 'Fe+3', 'C@@', 'C@', 'C:1', 'CH3:12', '2H', 'Se', 'Si', 'NH4+', 'C-', 'C+0', '0C', 'OH-',
               'P@@', 'Na+', 'Cl-', 'Br', 'I+3', 'Zn+2', 'NH+', 'NH2+', 'NH+1', 'CH-1', 'C@H+1', 'NH3+1', 'OH+1', 'CH2-1', 'C@@H-',
-              'NH+2', 'BH-1', 'SH+', 'PH+1', '13CH+1', 'NH:2', 'CH+:3', 'nH', 'c', 'se', 'Xx', 'C@@@', 'C+-', 'CH12', '', 'C++2']
+              'NH+2', 'BH-1', 'SH+', 'PH+1', '13CH+1', 'NH:2', 'CH+:3', 'SH3', 'PH4', 'SH5', 'PH5', 'ClH2', 'IH4', 'NH4', 'CH5', 'OH3', 'BH4', 'nH', 'c', 'se', 'Xx', 'C@@@', 'C+-', 'CH12', '', 'C++2']
 MODERN = ['[C]', '[=C]', '[N]', '[O]', '[F]', '[C@@H1]', '[N+1]', '[epsilon]', '[nop]', '[S]', '[P]', '[=S]', '[C]', '[C]', '[S]',
           '[#N]', '[=O]', '[Cl]', '[13CH2]', '[Fe+2]', '[/C]', '[\\C]', '[O-1]']
 # every modern branch / ring symbol: the flag must not touch any of them
@@ -37,7 +37,7 @@ def shards(tier):
 
 def floors(tier):
     return {"strings": 5000, "with_legacy": 3000, "legacy_reached": 2000, "no_legacy": 500, "rejected_without_flag": 1500,
-            "set:legacy_branch_ring_forms": 21, "set:expl_atoms": 40}
+            "set:legacy_branch_ring_forms": 21, "set:expl_atoms": 40, "with_empty_fragment": 300}
 
 
 def all_legacy(rng):
@@ -58,8 +58,8 @@ def run(ctx):
         return r[:2] if r[0] != "esc" else r[:3]
 
     for it in range(2000 if quick else 150000):
-        if it % 100 == 0:
-            sf.set_semantic_constraints(rng.choice(["default", "hypervalent", "octet_rule", {"?": 6, "C": 4, "N": 3}]))
+        if it % 40 == 0:
+            sf.set_semantic_constraints(rng.choice(["default", "hypervalent", "octet_rule", {"?": 6, "C": 4, "N": 3}, {"?": 1}, {"?": 12}]))
             table = sf.get_semantic_constraints()
         n = rng.randint(1, 16)
         toks = []
@@ -74,9 +74,10 @@ def run(ctx):
                 toks += [rng.choice(['[S]', '[P]', '[C]']), all_legacy(rng)]
         if rng.random() < 0.15:
             toks.insert(rng.randrange(len(toks) + 1), ".")
+        if rng.random() < 0.06:
+            toks.insert(rng.randrange(len(toks) + 1), "..")      # an empty fragment: legal decoder input
+            ctx.count("with_empty_fragment")
         x = "".join(toks)
-        if ".." in x:
-            continue
         toks = tokens_with_dots(x)
         mod = [modernize(t) if t != "." else t for t in toks]
         y = "".join(mod)
